@@ -203,3 +203,21 @@ META = {
                        "stub": ["device", "network", "clock", "goroutine choice (order of reads by several consumers)"]},
     },
 }
+
+# What the third wave of seeded changes added to the generators and oracles (appended to the rule texts above).
+_W3 = {
+    "C05": " Third-wave additions: fields are added in one to three stages (Add or AddAll), the builder being asked for requests between the stages.",
+    "C07": " Third-wave additions: idle gaps of up to 1.5 x the read timeout between the calls of a sequence.",
+    "C08": (" Third-wave additions: contexts that expire by their own deadline; a read-timeout error reported before the read timeout can have elapsed is a violation (premature_timeout); "
+            "follow-up calls after a faulted call on a transport that keeps dripping bytes (each call of a sequence is bounded separately); oversize replies of which only the first 1-14 bytes are genuine, the flood arriving in a later read."),
+    "C12": " Third-wave additions: call sequences on one client (good and corrupted replies mixed), end-of-stream right after a corrupted reply, hooks optionally installed, read-server-id replies up to 256 bytes.",
+    "C13": " Third-wave additions: hand-built BuilderRequest.Fields containing coil fields at any position; the caller's field list is compared with its state before the call.",
+    "C14": (" Third-wave additions: the serial port optionally implements Flusher (Flush discards what is buffered and is itself a scheduling point); "
+            "a call that fails although the transport was healthy and nobody closed or cancelled is a violation (call_failed_on_healthy_transport)."),
+    "C15": " Third-wave additions: bursts of more than 260 bytes of legal requests arriving in one read (22+ small requests, or a maximum-size write followed by the start of the next request).",
+    "C16": (" Third-wave additions: a reader that stalls in the middle of a reply while the transport accepts only a prefix of the write before the write deadline (anything written to that connection afterwards is a violation); "
+            "race mode: the same scenarios as free goroutines under -race."),
+    "C17": " Third-wave additions: a second lifecycle call (Shutdown again after a timed-out one, or concurrently); each Shutdown that returns nil owes everything; lifecycle actions at time 0, before Serve is called.",
+}
+for _k, _v in _W3.items():
+    META[_k]["rule"] += _v
